@@ -314,7 +314,7 @@ SELFTEST = [
     V("path evaluated in grid mode", EK, "mode='path', ibands=ibands)", "mode='grid', ibands=ibands)", "fire", "R29.1"),
     V("refined breaks keyed one too far", PT, "                breaks_refined.append(len(K_list_refined) - 1)\n            if i not in self.breaks:", "                breaks_refined.append(len(K_list_refined))\n            if i not in self.breaks:", "fire", "R29.2"),
     V("batches start at 1", PT, "for ik in range(0, len(self.K_list), k_batch):", "for ik in range(1, len(self.K_list), k_batch):", "fire", "R29.5"),
-    V("neutral: refined lists renamed", PT, "K_list_refined", "refined", "silent", replace_all=True),
+    V("neutral: refined lists renamed", PT, "K_list_refined", "kpts_fine", "silent", replace_all=True),
     V("neutral: labels_refined renamed", PT, "labels_refined", "new_lab", "silent", replace_all=True),
     V("neutral: loop variables renamed in from_nodes", PT, "new_labels", "lab_by_index", "silent", replace_all=True),
     V("neutral: getKline locals renamed", PT, "KPcart", "kcart", "silent", replace_all=True),
